@@ -9,6 +9,7 @@ Errors (definition not found, ambiguous, rule did not fire) raise SliceError -> 
 (undecided), never a violation.
 """
 import hashlib
+import os
 import re
 
 
@@ -436,7 +437,7 @@ _cache = {}
 def load(repo, rel):
     key = (repo, rel)
     if key not in _cache:
-        with open('%s/%s' % (repo, rel), encoding='utf-8', errors='surrogateescape') as f:
+        with open(rel if os.path.isabs(rel) else '%s/%s' % (repo, rel), encoding='utf-8', errors='surrogateescape') as f:
             t = f.read()
         _cache[key] = (t, mask(t))
     return _cache[key]
